@@ -71,9 +71,9 @@ Lemma kget_advance {V} T target k (d : td key V) v : kget k (td_advance key_eqb 
 Proof. unfold td_advance. intros H. apply kget_fire in H. apply kget_fire in H. exact H. Qed.
 
 (* ------------------------------------------------------------------------------------------ Block1 *)
-(* the payload length of a block agrees with its Block1 option (checked for blocks with M=1 only) *)
-Definition size_ok (b : blockopt) (r : msg) : bool :=
-  negb (b_more b) || (blen (m_payload r) =? b_size b) || ((b_szx b =? 7) && (blen (m_payload r) mod b_size b =? 0)).
+(* the payload length of a block agrees with its Block1 option: BlockwiseTuple.is_valid_for_payload_size
+   (M=1: exactly the block size, BERT a multiple of 1024; M=0: at most the block size, BERT anything) *)
+Definition size_ok (b : blockopt) (r : msg) : bool := is_valid_for_payload_size b (blen (m_payload r)).
 
 Definition appended (self nb : msg) (b : blockopt) : msg :=
   set_payload_block1_id_block2 self (m_payload self ++ m_payload nb) (Some b) (m_id nb)
@@ -85,8 +85,7 @@ Lemma append_cases self nb b : m_block1 nb = Some b -> is_request (m_code self) 
   (size_ok b nb = true /\ b_start b <> blen (m_payload self) /\ append_request_block self nb = RRaise (EOther ValueError)).
 Proof.
   intros Hb Hr. unfold append_request_block, size_ok, appended. rewrite Hr, Hb. cbn [negb].
-  set (X := blen (m_payload nb) =? b_size b). set (Y := (b_szx b =? 7) && (blen (m_payload nb) mod b_size b =? 0)).
-  destruct (b_more b), X, Y; cbn [andb negb orb];
+  destruct (is_valid_for_payload_size b (blen (m_payload nb))); cbn [negb];
     try (left; split; reflexivity);
     (right; destruct (b_start b =? blen (m_payload self)) eqn:E; [left|right];
      (split; [reflexivity|split; [lia|reflexivity]])).
@@ -98,11 +97,11 @@ Proof. intros H. unfold feed_and_take. rewrite H. reflexivity. Qed.
 Lemma fat_first T now sp req b : m_block1 req = Some b -> b_num b = 0 ->
   let sp1 := td_setitem key_eqb T now (extract_block_key req) req sp in
   feed_and_take T now sp req =
-    if b_more b then (sp1, RRaise (EContinue b)) else (td_accessed T now (extract_block_key req) sp1, ROk req).
+    if b_more b then (sp1, RRaise (EContinue b)) else (td_pop key_eqb (extract_block_key req) sp1, ROk req).
 Proof.
   intros Hb Hn. unfold feed_and_take. rewrite Hb, Hn. cbn [Z.eqb].
   destruct (b_more b); [reflexivity|].
-  rewrite td_getitem_kget, kget_setitem_same. reflexivity.
+  fold (kget (extract_block_key req) (td_setitem key_eqb T now (extract_block_key req) req sp)). rewrite kget_setitem_same. reflexivity.
 Qed.
 
 Lemma fat_unknown T now sp req b : m_block1 req = Some b -> b_num b <> 0 -> kget (extract_block_key req) sp = None ->
@@ -121,7 +120,7 @@ Lemma fat_known T now sp req b asm : m_block1 req = Some b -> b_num b <> 0 ->
   (size_ok b req = true -> b_start b = blen (m_payload asm) ->
      let sp2 := td_mutate key_eqb k (appended asm req b) sp1 in
      feed_and_take T now sp req =
-       if b_more b then (sp2, RRaise (EContinue b)) else (td_accessed T now k sp2, ROk (appended asm req b))).
+       if b_more b then (sp2, RRaise (EContinue b)) else (td_pop key_eqb k sp2, ROk (appended asm req b))).
 Proof.
   intros Hb Hn Hg Hr k sp1.
   assert (E : feed_and_take T now sp req =
@@ -133,15 +132,15 @@ Proof.
               match fed with
               | (a1, Some e) => (a1, RRaise e)
               | (a1, None) => if b_more b then (a1, RRaise (EContinue b))
-                              else match td_getitem key_eqb T now k a1 with
-                                   | Some (asm, a2) => (a2, ROk asm) | None => (a1, RRaise (EOther KeyError)) end
+                              else match alist_get key_eqb k (td_items a1) with
+                                   | Some asm => (td_pop key_eqb k a1, ROk asm) | None => (a1, RRaise (EOther AttributeError)) end
               end).
   { unfold feed_and_take. rewrite Hb. replace (b_num b =? 0) with false by lia.
     rewrite td_getitem_kget, Hg. reflexivity. }
   destruct (append_cases asm req b Hb Hr) as [[S A]|[[S [St A]]|[S [St A]]]]; rewrite A in E; cbn zeta in E.
   - repeat split; intros; try congruence; try exact E.
   - repeat split; intros; try congruence. rewrite E. cbn iota.
-    destruct (b_more b); [reflexivity|]. rewrite td_getitem_kget, kget_mutate_same. reflexivity.
+    destruct (b_more b); [reflexivity|]. fold (kget k (td_mutate key_eqb k (appended asm req b) sp1)). rewrite kget_mutate_same. reflexivity.
   - repeat split; intros; try congruence; try exact E.
 Qed.
 
@@ -271,6 +270,11 @@ Definition spool_inv (g : gasm) (sp : spool) : Prop :=
 
 Lemma spool_inv_empty g : spool_inv g td_empty.
 Proof. intros k m H. discriminate. Qed.
+Lemma spool_inv_pop g sp k : spool_inv g sp -> spool_inv g (td_pop key_eqb k sp).
+Proof.
+  intros I k' m H. destruct (key_dec k' k) as [->|N]; [rewrite kget_pop_same in H; discriminate|].
+  rewrite kget_pop_other in H by exact N. exact (I k' m H).
+Qed.
 Lemma spool_inv_advance g T target sp : spool_inv g sp -> spool_inv g (td_advance key_eqb T target sp).
 Proof. intros I k m H. apply kget_advance in H. exact (I k m H). Qed.
 
@@ -314,7 +318,7 @@ Proof.
     rewrite E, G. destruct (b_more b) eqn:Hm.
     + split; [exact I1|]. unfold taken_ok. rewrite Hb. left. split; [exact Hm|reflexivity].
     + split.
-      * intros k' m H. rewrite kget_accessed in H. exact (I1 k' m H).
+      * apply spool_inv_pop. exact I1.
       * unfold taken_ok. rewrite Hb. split; [exact Hm|]. exists [req]. rewrite gset_same.
         split; [reflexivity|split; [exact A|split; reflexivity]].
   - destruct (kget k sp) as [asm|] eqn:Hg.
@@ -363,7 +367,7 @@ Proof.
     rewrite (F3 eq_refl St), G'. destruct (b_more b) eqn:Hm.
     + split; [exact I2|]. unfold taken_ok. rewrite Hb. left. split; [exact Hm|reflexivity].
     + split.
-      * intros k' m H. rewrite kget_accessed in H. exact (I2 k' m H).
+      * apply spool_inv_pop. exact I2.
       * unfold taken_ok. rewrite Hb. split; [exact Hm|]. exists (bs ++ [req]). rewrite gset_same.
         split; [reflexivity|split; [exact A'|split; [apply last_snoc|exact K']]].
 Qed.
@@ -702,7 +706,7 @@ Proof.
       intros k' N. apply kget_setitem_other. exact N.
     + destruct (extract_or_insert T now (block2 s) req rendering) as [[ca calls] [res|e]]; cbn [block1];
       (split; [intros; discriminate|]; split; [intros; contradiction|]; split; [intros; contradiction|];
-       intros k' N; rewrite kget_accessed; apply kget_setitem_other; exact N).
+       intros k' N; rewrite kget_pop_other by exact N; apply kget_setitem_other; exact N).
   - destruct (kget k (block1 s)) as [asm|] eqn:Hg.
     + destruct (I k asm Hg) as (bs & _ & _ & _ & Ra).
       destruct (fat_known T now (block1 s) req b asm Hb Hn Hg Ra) as (F1 & F2 & F3). fold k in F1, F2, F3.
@@ -716,7 +720,7 @@ Proof.
            ++ destruct (extract_or_insert T now (block2 s) (appended asm req b) rendering) as [[ca calls] [res|e]]; cbn [block1];
               (split; [intros; discriminate|]; split; [intros; discriminate|]; split;
                [intros asm0 _ [= <-]; split; [intros; discriminate|]; split; [intros; contradiction|]; intros; discriminate|];
-               intros k' N; rewrite kget_accessed, kget_mutate_other by exact N; apply kget_accessed).
+               intros k' N; rewrite kget_pop_other, kget_mutate_other by exact N; apply kget_accessed).
         -- rewrite (F2 eq_refl St). cbn [block1]. split; [intros; contradiction|]. split; [intros; discriminate|]. split.
            ++ intros asm0 _ [= <-]. split; [intros; discriminate|]. split; [|intros; contradiction].
               intros _ _. split; [reflexivity|split; [reflexivity|rewrite kget_accessed; exact Hg]].
@@ -959,20 +963,174 @@ Proof.
 Qed.
 
 (* the schedule model with a handler that returns at once is the atomic model: [SBegin] directly followed by its
-   [SFinish] is the [Request] step (requests without Block1 that make the handler render) *)
+   [SFinish] is the [Request] step (requests without Block1 that make the handler render): the builder is still the
+   latest one of its key when it returns *)
+Lemma eoi_late_true T now ca req rendering : match m_block2 req with Some b2 => b_num b2 = 0 | None => True end ->
+  extract_or_insert T now ca req rendering =
+  let '(ca', r) := extract_or_insert_late T now ca req rendering true in (ca', [req], r).
+Proof.
+  intros Hb. rewrite (eoi_first T now ca req rendering Hb). cbn zeta. unfold extract_or_insert_late, needs_chunking.
+  destruct (m_block2 req) as [b2|].
+  - rewrite Hb. destruct ((blen (p_payload rendering) >? m_mps req) || ((blen (p_payload rendering) >? b_size b2) || negb (0 =? 0))); reflexivity.
+  - destruct ((blen (p_payload rendering) >? m_mps req) || false); reflexivity.
+Qed.
 Lemma atomic_schedule_is_request T st id req rendering : m_block1 req = None -> is_first req = true ->
   let '(st1, o1) := sstep T st (SBegin id req) in
   let '(st2, o2) := sstep T st1 (SFinish id rendering) in
   let '(s', calls, res) := render_to_pipe T (s_now st) (s_res st) req rendering in
   o1 = SOBegin calls /\ o2 = SOFinish (Some res) (snd (rsizes s')) /\ s_res st2 = s' /\ s_now st2 = s_now st.
 Proof.
-  intros H1 Hf. cbn [sstep]. cbn [s_pending pending_get s_now s_res]. rewrite Z.eqb_refl.
+  intros H1 Hf. cbn [sstep]. cbn [s_pending pending_get s_now s_res s_latest]. rewrite Z.eqb_refl.
+  rewrite (alist_get_set_same key_eqb key_eqb_eq), Z.eqb_refl.
   assert (Hb : match m_block2 req with Some b2 => b_num b2 = 0 | None => True end).
   { unfold is_first in Hf. destruct (m_block2 req) as [b2|]; [lia|trivial]. }
-  pose proof (eoi_first T (s_now st) (block2 (s_res st)) req rendering Hb) as E. cbn zeta in E.
   unfold render_to_pipe. rewrite (fat_none T (s_now st) (block1 (s_res st)) req H1).
-  destruct (extract_or_insert T (s_now st) (block2 (s_res st)) req rendering) as [[ca calls] r] eqn:X.
-  assert (Hc : calls = [req]).
-  { destruct (needs_chunking req rendering); injection E as _ <- _; reflexivity. }
-  subst calls. destruct r as [x|e]; cbn [render_result_of s_res s_now]; repeat split; rewrite ?H1; reflexivity.
+  rewrite (eoi_late_true T (s_now st) (block2 (s_res st)) req rendering Hb).
+  destruct (extract_or_insert_late T (s_now st) (block2 (s_res st)) req rendering true) as [ca r].
+  destruct r as [x|e]; cbn [render_result_of s_res s_now]; repeat split; rewrite ?H1; reflexivity.
+Qed.
+
+(* ------------------------------------------------------------------------------------------
+   overlapping renderings (schedule model): the stored rendering of a key is the one returned by the handler of the
+   LATEST begun rendering request of that key *)
+Record sghost := { sg_latest : key -> option Z;            (* id of the latest begun rendering request of the key *)
+                   sg_fin : key -> option (Z * resp) }.    (* (id, rendering) once that request's handler has returned and the rendering was stored *)
+Definition sghost_init : sghost := {| sg_latest := fun _ => None; sg_fin := fun _ => None |}.
+Definition marker (st : sstate) (k : key) : option Z := alist_get key_eqb k (s_latest st).
+Definition sghost_step (st : sstate) (g : sghost) (e : sevent) : sghost :=
+  match e with
+  | SBegin id req =>
+    let k := extract_block_key req in {| sg_latest := gset (sg_latest g) k id; sg_fin := gclr (sg_fin g) k |}
+  | SFinish id rendering =>
+    match pending_get id (s_pending st) with
+    | None => g
+    | Some req =>
+      let k := extract_block_key req in
+      if match marker st k with Some i => i =? id | None => false end
+      then {| sg_latest := sg_latest g;
+              sg_fin := if needs_chunking req rendering then gset (sg_fin g) k (id, rendering) else gclr (sg_fin g) k |}
+      else g
+    end
+  | SLater _ => g
+  | SAdvance _ => g
+  end.
+Definition wf_sevent (e : sevent) : Prop :=
+  match e with
+  | SLater req => m_block1 req = None /\ exists b2, m_block2 req = Some b2 /\ b_num b2 <> 0
+  | _ => True
+  end.
+Definition sinv (st : sstate) (g : sghost) : Prop :=
+  (forall k i, marker st k = Some i -> sg_latest g k = Some i) /\
+  (forall k R, marker st k = None -> kget k (block2 (s_res st)) = Some R -> exists i, sg_fin g k = Some (i, R)) /\
+  (forall k i R, sg_fin g k = Some (i, R) -> sg_latest g k = Some i).
+
+Lemma sinv_init : sinv sstate_init sghost_init.
+Proof. split; [|split]; intros; discriminate. Qed.
+
+Definition chunk_late (req : msg) (r : resp) : bool :=
+  (blen (p_payload r) >? m_mps req)
+  || match m_block2 req with Some b2 => (blen (p_payload r) >? b_size b2) || negb (b_num b2 =? 0) | None => false end.
+Lemma chunk_late_is_needs_chunking req r : chunk_late req r = needs_chunking req r.
+Proof. reflexivity. Qed.
+Lemma eoi_late_cache T now ca req rendering is_latest :
+  fst (extract_or_insert_late T now ca req rendering is_latest) =
+    if is_latest then (if needs_chunking req rendering then td_setitem key_eqb T now (extract_block_key req) rendering ca
+                       else td_pop key_eqb (extract_block_key req) ca)
+    else ca.
+Proof.
+  unfold extract_or_insert_late. fold (chunk_late req rendering). rewrite chunk_late_is_needs_chunking.
+  destruct (needs_chunking req rendering), is_latest; reflexivity.
+Qed.
+
+Lemma sstep_inv T st g e : wf_sevent e -> sinv st g -> sinv (fst (sstep T st e)) (sghost_step st g e).
+Proof.
+  intros We (M & C & F). destruct e as [id req|id rendering|req|dt].
+  - (* a rendering request arrives: it becomes the latest builder of its key *)
+    cbn [sstep fst sghost_step]. set (k0 := extract_block_key req). unfold sinv, marker; cbn [s_latest s_res sg_latest sg_fin].
+    split; [|split].
+    + intros k i. destruct (key_dec k k0) as [->|N].
+      * rewrite (alist_get_set_same key_eqb key_eqb_eq), gset_same. auto.
+      * rewrite (alist_get_set_other key_eqb key_eqb_eq) by exact N. rewrite gset_other by exact N. apply M.
+    + intros k R. destruct (key_dec k k0) as [->|N].
+      * rewrite (alist_get_set_same key_eqb key_eqb_eq). discriminate.
+      * rewrite (alist_get_set_other key_eqb key_eqb_eq) by exact N. rewrite gclr_other by exact N. apply C.
+    + intros k i R. destruct (key_dec k k0) as [->|N].
+      * rewrite gclr_same. discriminate.
+      * rewrite gclr_other, gset_other by exact N. apply F.
+  - (* a handler returns *)
+    cbn [sstep sghost_step]. destruct (pending_get id (s_pending st)) as [req|]; [|cbn [fst]; split; [exact M|split; [exact C|exact F]]].
+    set (k0 := extract_block_key req). fold (marker st k0).
+    pose proof (eoi_late_cache T (s_now st) (block2 (s_res st)) req rendering
+                  (match marker st k0 with Some i => i =? id | None => false end)) as Ec. fold k0 in Ec.
+    destruct (extract_or_insert_late T (s_now st) (block2 (s_res st)) req rendering
+                (match marker st k0 with Some i => i =? id | None => false end)) as [ca r]. cbn [fst] in Ec. subst ca. cbn [fst].
+    destruct (match marker st k0 with Some i => i =? id | None => false end) eqn:L.
+    + assert (Mk : marker st k0 = Some id).
+      { destruct (marker st k0) as [i|]; [|discriminate]. apply Z.eqb_eq in L. congruence. }
+      unfold sinv, marker; cbn [s_latest s_res block2 sg_latest sg_fin]. split; [|split].
+      * intros k i. rewrite (alist_get_remove key_eqb key_eqb_eq). destruct (key_eqb k k0); [discriminate|apply M].
+      * intros k R. rewrite (alist_get_remove key_eqb key_eqb_eq). destruct (key_dec k k0) as [->|N].
+        -- intros _. destruct (needs_chunking req rendering).
+           ++ rewrite kget_setitem_same, gset_same. intros [= <-]. eauto.
+           ++ rewrite kget_pop_same. discriminate.
+        -- rewrite key_eqb_neq by exact N. intros Mn. destruct (needs_chunking req rendering).
+           ++ rewrite kget_setitem_other by exact N. rewrite gset_other by exact N. exact (C k R Mn).
+           ++ rewrite kget_pop_other by exact N. rewrite gclr_other by exact N. exact (C k R Mn).
+      * intros k i R. destruct (key_dec k k0) as [->|N].
+        -- destruct (needs_chunking req rendering); [rewrite gset_same; intros [= <- _]; exact (M k0 id Mk)|rewrite gclr_same; discriminate].
+        -- destruct (needs_chunking req rendering); [rewrite gset_other by exact N|rewrite gclr_other by exact N]; apply F.
+    + unfold sinv, marker; cbn [s_latest s_res block2]. split; [exact M|split; [exact C|exact F]].
+  - (* a later block: the cache keeps what it holds *)
+    cbn [wf_sevent] in We. destruct We as (H1 & b2 & H2 & Hn). cbn [sstep sghost_step].
+    set (dummy := {| p_code := 0; p_block1 := None; p_block2 := None; p_payload := [] |}).
+    assert (Hc : forall k R, kget k (block2 (fst (fst (render_to_pipe T (s_now st) (s_res st) req dummy)))) = Some R -> kget k (block2 (s_res st)) = Some R).
+    { unfold render_to_pipe. rewrite (fat_none T (s_now st) (block1 (s_res st)) req H1).
+      pose proof (eoi_later T (s_now st) (block2 (s_res st)) req b2 dummy H2 Hn) as E. cbn zeta in E.
+      destruct (kget (extract_block_key req) (block2 (s_res st))) as [Rn|] eqn:Hg; rewrite E.
+      - destruct (extract_block Rn (b_num b2) (b_szx b2) (m_mps req)); cbn [fst block2]; intros k R;
+        (destruct (key_dec k (extract_block_key req)) as [->|N];
+         [rewrite kget_setitem_same; congruence|rewrite kget_setitem_other by exact N; rewrite kget_accessed; auto]).
+      - cbn [fst block2 error_to_message]. auto. }
+    destruct (render_to_pipe T (s_now st) (s_res st) req dummy) as [[s' calls] res]. cbn [fst] in *.
+    unfold sinv, marker; cbn [s_latest s_res]. split; [exact M|split; [|exact F]].
+    intros k R Mn H. exact (C k R Mn (Hc k R H)).
+  - cbn [sstep fst sghost_step]. unfold sinv, marker; cbn [s_latest s_res]. split; [exact M|split; [|exact F]].
+    intros k R Mn H. unfold rstate_advance in H; cbn [block2] in H. apply kget_advance in H. exact (C k R Mn H).
+Qed.
+
+Fixpoint srun_state (T : Z) (st : sstate) (g : sghost) (es : list sevent) : sstate * sghost :=
+  match es with
+  | [] => (st, g)
+  | e :: r => srun_state T (fst (sstep T st e)) (sghost_step st g e) r
+  end.
+Lemma srun_state_inv T es : forall st g, Forall wf_sevent es -> sinv st g ->
+  sinv (fst (srun_state T st g es)) (snd (srun_state T st g es)).
+Proof.
+  induction es as [|e es IH]; intros st g F I; [exact I|].
+  inversion F as [|? ? We Fr]; subst. cbn [srun_state]. apply IH; [exact Fr|]. apply sstep_inv; assumption.
+Qed.
+
+(* the answer to a later block while no builder of its key is pending as the latest one *)
+Lemma schedule_later_block_lemma T st g req b2 : sinv st g ->
+  m_block1 req = None -> m_block2 req = Some b2 -> b_num b2 <> 0 -> marker st (extract_block_key req) = None ->
+  match snd (sstep T st (SLater req)) with
+  | SOLater calls res _ =>
+    calls = [] /\
+    (res = incomplete_resp \/
+     exists i Rn, sg_fin g (extract_block_key req) = Some (i, Rn) /\ sg_latest g (extract_block_key req) = Some i /\
+       res = if b2_start (b_szx b2) (b_num b2) >=? blen (p_payload Rn) then bad_request_resp txt_out_of_bounds
+             else slice_resp Rn (b_num b2) (b_szx b2) (m_mps req))
+  | _ => False
+  end.
+Proof.
+  intros (M & C & F) H1 H2 Hn Mn. cbn [sstep].
+  set (dummy := {| p_code := 0; p_block1 := None; p_block2 := None; p_payload := [] |}).
+  pose proof (block2_exact_slice_lemma T (s_now st) (fun k => kget k (block2 (s_res st))) (s_res st) req dummy b2 H1 H2 Hn
+                (fun k R H => H)) as E. cbn zeta in E.
+  destruct (render_to_pipe T (s_now st) (s_res st) req dummy) as [[s' calls] res]. cbn [snd].
+  destruct E as (Ec & _ & E). split; [exact Ec|].
+  destruct (kget (extract_block_key req) (block2 (s_res st))) as [Rn|] eqn:Hg.
+  - destruct E as (_ & _ & Er). right. destruct (C _ Rn Mn Hg) as (i & Fi). exists i, Rn.
+    split; [exact Fi|]. split; [exact (F _ i Rn Fi)|exact Er].
+  - destruct E as (Er & _). left. exact Er.
 Qed.
